@@ -17,7 +17,7 @@ import (
 
 func secretsMatch(c hsConfig) bool {
 	if c.Pattern == "KK" {
-		return c.IKnowsR && c.RKnowsI
+		return c.IKnowsR && c.RKnowsI && c.Impostor == ""
 	}
 	return c.PassMode == "same" || c.PassMode == ""
 }
@@ -32,6 +32,8 @@ func genC03(t *rapid.T) hsConfig {
 		c.RMax = 2
 		c.IKnowsR = rapid.IntRange(0, 2).Draw(t, "i_knows_r") != 0
 		c.RKnowsI = rapid.IntRange(0, 2).Draw(t, "r_knows_i") != 0
+		// a party that only knows the public halves of the pairing
+		c.Impostor = rapid.SampledFrom([]string{"", "", "initiator", "responder"}).Draw(t, "impostor")
 	} else {
 		c.Pattern = "XX"
 		// compatible ranges: rmin <= imin <= rmax, imin <= rmax <= imax
@@ -115,6 +117,9 @@ func TestC03Secrets(t *testing.T) {
 			lab = c.Pattern + "_mismatch_" + c.PassMode
 			if c.Pattern == "KK" {
 				lab = fmt.Sprintf("KK_mismatch_i%v_r%v", c.IKnowsR, c.RKnowsI)
+				if c.Impostor != "" {
+					lab = "KK_impostor_" + c.Impostor
+				}
 			}
 		}
 		rec.Case(!m, fmt.Sprintf("%+v", c), lab)
